@@ -229,6 +229,15 @@ impl<'builder> Builder<'builder> {
         let handshake_cipherstate = CipherState::new(cipher);
         let cipherstates = CipherStates::new(CipherState::new(cipher1), CipherState::new(cipher2))?;
 
+        // Keys are copied into fixed-size buffers below (and inside the `Dh` implementations):
+        // a key of the wrong length is a configuration error, not a reason to panic.
+        if self.s.is_some_and(|k| k.len() != s_dh.priv_len())
+            || self.e_fixed.is_some_and(|k| k.len() != e_dh.priv_len())
+            || self.rs.is_some_and(|k| k.len() != s_dh.pub_len())
+        {
+            return Err(InitStage::ValidateKeyLengths.into());
+        }
+
         let s = match self.s {
             Some(k) => {
                 (*s_dh).set(k);
